@@ -121,14 +121,13 @@ def forceDisconnect (s : LL) (reason : Nat) : LL :=
 -- src: link_layer.hpp:adv_received  (a CONNECT_IND for this device, from a central that passes the
 -- filter policy, with a valid channel map and hop; fix timing-02: the `else` branch)
 def advReceived (s : LL) (r : Raw) (sca : Nat) : Option LL :=
-  let (p, ok) := parseConnect r
-  match ok with
+  match (parseConnect r).2 with
   | none => none
   | some true =>
-      setupNext { s with phase := .connecting, tp := p, counter := 0, timeSince := 0,
+      setupNext { s with phase := .connecting, tp := (parseConnect r).1, counter := 0, timeSince := 0,
                          sca := centralSca sca + s.ownSca, reason := connectionTimeout, proc := 0,
                          pending := none, advSched := false }
-  | some false => some { s with tp := p, advSched := true }
+  | some false => some { s with tp := (parseConnect r).1, advSched := true }
 
 /-- result of `handle_pending_ll_control`: `none` = assertion, `some (s, goAhead)` -/
 -- src: link_layer.hpp:handle_pending_ll_control (LL_CONNECTION_UPDATE_IND only)
@@ -136,11 +135,10 @@ def handlePending (s : LL) : Option (LL × Bool) :=
   match s.pending with
   | some (r, inst) =>
       if inst = s.counter then
-        let (p, ok) := parseUpdate r
-        match ok with
+        match (parseUpdate r).2 with
         | none => none
-        | some true  => some ({ s with tp := p, proc := 0, phase := .changed, pending := none }, true)
-        | some false => some ({ s with tp := p, proc := 0, pending := none }, false)
+        | some true  => some ({ s with tp := (parseUpdate r).1, proc := 0, phase := .changed, pending := none }, true)
+        | some false => some ({ s with tp := (parseUpdate r).1, proc := 0, pending := none }, false)
       else some (s, true)
   | none => some (s, true)
 
